@@ -331,6 +331,97 @@ func (c *Ctx) paramOfType(fd *ast.FuncDecl, typeName string) types.Object {
 	}
 }
 
+// callCoverage: the positions below the holder parameter hp that one call expands: directly (its element
+// argument comes from below hp) or through a helper that receives the whole holder (followed, bound 2).
+// The value is "" when the position is expanded in place or written back, otherwise the reason it is not.
+func (c *Ctx) callCoverage(fam *expFamily, fd *ast.FuncDecl, oc *originCtx, hp types.Object, typ string, call *ast.CallExpr, depth int) map[string]string {
+	out := map[string]string{}
+	g, ok := c.callee(call).(*types.Func)
+	if !ok || g.Pkg() != c.Types || len(call.Args) == 0 {
+		return out
+	}
+	// whole-holder delegation
+	for ai, a := range call.Args {
+		for _, o := range oc.origins(a, 0) {
+			if o.root == hp && len(o.steps) == 0 && !o.copy && depth < 2 {
+				gfd := c.decl(g)
+				if gfd == nil || gfd.Body == nil {
+					continue
+				}
+				gp := c.paramObj(gfd, ai)
+				if gp == nil || !isNamed(gp.Type(), c.Types, typ) {
+					continue
+				}
+				c.saw(c.funcName(gfd))
+				for p, w := range c.holderCoverage(fam, gfd, gp, typ, depth+1) {
+					if prev, had := out[p]; !had || (prev != "" && w == "") {
+						out[p] = w
+					}
+				}
+			}
+		}
+	}
+	if !fam.members[g] {
+		return out
+	}
+	res := c.resultVarOfCall(fd, call)
+	for _, o := range oc.origins(call.Args[0], 0) {
+		if o.root != hp || len(o.steps) == 0 {
+			continue
+		}
+		p := o.sub()
+		if !o.copy {
+			out[p] = ""
+			continue
+		}
+		var copyVar types.Object
+		a := unparen(call.Args[0])
+		if u, ok := a.(*ast.UnaryExpr); ok && u.Op == token.AND {
+			a = unparen(u.X)
+		}
+		if id, ok := a.(*ast.Ident); ok {
+			copyVar = c.objOf(id)
+		}
+		good := false
+		if res != nil && c.storedBack(fd, oc, call, hp, o.steps, res) {
+			good = true
+		}
+		if !good && copyVar != nil && c.storedBack(fd, oc, call, hp, o.steps, copyVar) {
+			if u, isAddr := unparen(call.Args[0]).(*ast.UnaryExpr); isAddr && u.Op == token.AND {
+				good = true
+			}
+		}
+		if good {
+			out[p] = ""
+		} else if _, had := out[p]; !had {
+			out[p] = "element is copied out of its container and expanded, but the expanded copy is never written back"
+		}
+	}
+	return out
+}
+
+// holderCoverage unions callCoverage over every call of the function.
+func (c *Ctx) holderCoverage(fam *expFamily, fd *ast.FuncDecl, hp types.Object, typ string, depth int) map[string]string {
+	covered := map[string]string{}
+	if fd == nil || fd.Body == nil || hp == nil {
+		return covered
+	}
+	oc := c.newOriginCtx(fd)
+	ast.Inspect(fd.Body, func(n ast.Node) bool {
+		call, ok := n.(*ast.CallExpr)
+		if !ok {
+			return true
+		}
+		for p, w := range c.callCoverage(fam, fd, oc, hp, typ, call, depth) {
+			if prev, had := covered[p]; !had || (prev != "" && w == "") {
+				covered[p] = w
+			}
+		}
+		return true
+	})
+	return covered
+}
+
 func ruleContainers(c *Ctx) {
 	const rule = "containers"
 	fam := c.family()
@@ -367,48 +458,7 @@ func ruleContainers(c *Ctx) {
 		c.saw(c.funcName(h.fd))
 		hp := c.paramOfType(h.fd, h.typ)
 		positions := c.typePositions(n, elementTypes)
-		oc := c.newOriginCtx(h.fd)
-		covered := map[string]string{} // position -> "" ok | reason
-		for _, call := range c.familyCalls(fam, h.fd) {
-			if len(call.Args) == 0 {
-				continue
-			}
-			res := c.resultVarOfCall(h.fd, call)
-			for _, o := range oc.origins(call.Args[0], 0) {
-				if o.root != hp || len(o.steps) == 0 {
-					continue
-				}
-				p := o.sub()
-				if !o.copy {
-					covered[p] = ""
-					continue
-				}
-				// by-value copy: must be written back (the copy variable, or the call's result)
-				var copyVar types.Object
-				a := unparen(call.Args[0])
-				if u, ok := a.(*ast.UnaryExpr); ok && u.Op == token.AND {
-					a = unparen(u.X)
-				}
-				if id, ok := a.(*ast.Ident); ok {
-					copyVar = c.objOf(id)
-				}
-				ok := false
-				if res != nil && c.storedBack(h.fd, oc, call, hp, o.steps, res) {
-					ok = true
-				}
-				if !ok && copyVar != nil && c.storedBack(h.fd, oc, call, hp, o.steps, copyVar) {
-					// expansion through &copy mutates the copy in place; storing the copy back is the write-back
-					if u, isAddr := unparen(call.Args[0]).(*ast.UnaryExpr); isAddr && u.Op == token.AND {
-						ok = true
-					}
-				}
-				if ok {
-					covered[p] = ""
-				} else if _, had := covered[p]; !had {
-					covered[p] = "element is copied out of its container and expanded, but the expanded copy is never written back"
-				}
-			}
-		}
+		covered := c.holderCoverage(fam, h.fd, hp, h.typ, 0)
 		for _, p := range sortedKeys(positions) {
 			why, has := covered[p]
 			key := h.typ + "." + p
